@@ -31,6 +31,163 @@ TRUSTED_COMMON = [
 ]
 
 
+TRUSTED_QUEUE = [
+    "tools/goqueue (purely syntactic translator, one Go statement of a queue_ method = one constructor of coq/QueueLang.v; fields found by their types, locals by their use) and the meaning given to that micro-language in coq/QueueSem.v (segments between scheduling points; Go channel semantics as a token counter with capacity and closed flag; the mutex as the discipline 'one shared action per segment')",
+]
+TRUSTED_PIPES = [
+    "tools/gopipes (purely syntactic translator, one Go statement of the queue class functions MakeWithCapacity / MakeFromArray / MakeFromSequence / Fork / Split / Join = one constructor of coq/PipeLang.v; fields found by their types, parameters named by type and locals by what they are initialised with) and the meaning given to that micro-language in coq/PipeSem.v (a goroutine as a call generator: local code between two queue-method calls; iterators = the model of agent/iterator.go proved in IterProofs.v; nil queue = panic; uint as unbounded naturals; List[QueueLike]/Array as sequences; the caller's part of Fork/Split/Join run to completion before the pipeline starts)",
+]
+TRUSTED_GEN = [
+    "tools/gotrans (Go -> MiniGo translator, go/parser based, purely syntactic; regenerates coq/GenSrc.v on every run) and coq/MiniGo.v (the hand-written semantics of the MiniGo terms: unbounded int, value-semantics slices with write-back of receivers, panic messages ignored, generics as an opaque element type, interfaces resolved by dynamic type name); coq/GenRep.v (how model states are represented as MiniGo values)",
+]
+
+
+def enclosing_lemma(vfile, line):
+    """name of the Lemma/Theorem/... that contains the given line of a .v file"""
+    name = None
+    for n, l in enumerate(open(vfile, encoding='utf-8').read().split('\n'), 1):
+        if n > line:
+            break
+        m = re.match(r'\s*(Lemma|Theorem|Corollary|Example|Fact|Proposition|Definition|Fixpoint)\s+(\w+)', l)
+        if m:
+            name = m.group(2)
+    return name
+
+
+def gen_check(drv, pid, cfg, info, seed, tier, viol_so_far):
+    """The proofs about the GENERATED code (coq/GenSrc.v, regenerated from the Go sources by tools/gotrans): compile
+    the property's Gen*.v files; when one no longer checks, evaluate the property's small-domain sweeps
+    (coq/GenSweep.v: generated code against model function) and report the disagreeing inputs.
+    Returns (number of violations, evidence)."""
+    rep = info.get('gotrans_report') or {}
+    mine = [f for f in rep.get('functions', []) if pid in f.get('props', [])]
+    ev = dict(translator=info.get('gotrans'), functions=[dict(function='%s.%s' % (f['type'], f['method']), source='%s:%d-%d' % (f['file'], f['start_line'], f['end_line']),
+                                                               sha256=f['sha256'], term='GenSrc.' + f['coq']) for f in mine],
+              gen_proofs=cfg['gen_proofs'])
+    flat = [f for g in cfg['gen_proofs'] for f in (g if isinstance(g, list) else [g])]
+    errs = [e for e in rep.get('errors', []) if pid in e.get('props', [])]
+    if errs:
+        # a selected function is missing or has left the subset the translator understands
+        violation(drv, pid, dict(property=pid, seed=seed, tier=tier, case='gentrans', kind='proof-obligation', stage='gotrans',
+                                 theorem_or_correspondence='the Go -> MiniGo translator (tools/gotrans) can no longer translate a function that the theorems of %s are about; they are not re-checked against the current source' % ', '.join(flat),
+                                 translator_messages=['%s: %s.%s: %s' % (e['pos'], e['type'], e['method'], e['msg']) for e in errs]),
+                  'no-failing-input-found')
+        ev['translator_errors'] = errs
+        return 1, ev
+    t0 = time.time()
+    failed = None
+    out = ''
+    with drv.Lock():
+        # the files are compiled in the listed order; a nested list is a group of files that do not depend on each
+        # other and are compiled at the same time.  A dependency whose .vo is newer than its sources is not recompiled;
+        # the property's own (last) file always is, to capture its Print Assumptions.
+        from concurrent.futures import ThreadPoolExecutor
+        prev = [os.path.join(drv.COQ, x) for x in ('GenSrc.vo', 'GenLib.vo', 'GenRep.vo')]
+        groups = [g if isinstance(g, list) else [g] for g in cfg['gen_proofs']]
+
+        def compile_one(f):
+            return f, drv.run(['timeout', '900', 'coqc', '-R', drv.COQ, 'Verif', os.path.join(drv.COQ, f)], cwd=drv.COQ)
+
+        for gi, group in enumerate(groups):
+            last = gi == len(groups) - 1
+            todo = []
+            for f in group:
+                src, vo = os.path.join(drv.COQ, f), os.path.join(drv.COQ, f[:-2] + '.vo')
+                fresh = os.path.exists(vo) and all(os.path.getmtime(vo) >= os.path.getmtime(d) for d in prev + [src] if os.path.exists(d))
+                if not fresh or last:
+                    todo.append(f)
+            with ThreadPoolExecutor(max_workers=4) as ex:
+                for f, (rc, o) in ex.map(compile_one, todo):
+                    if rc != 0 and failed is None:
+                        failed, out = f, o
+                        vo = os.path.join(drv.COQ, f[:-2] + '.vo')
+                        if os.path.exists(vo):
+                            os.remove(vo)
+                    elif failed is None:
+                        out = o
+            if failed is not None:
+                break
+            prev += [os.path.join(drv.COQ, f[:-2] + '.vo') for f in group]
+    ev['gen_proofs_s'] = round(time.time() - t0, 1)
+    # the small-domain sweeps (generated code against model function) are evaluated on every run: they also cover
+    # translated functions about which no lemma is proved yet, and they supply the failing input when a proof breaks
+    # identifiers for the replay texts: method and type names (>= 101, from GenSrc.v) and the canonical field
+    # identifiers 1..20 of MiniGo.v (their real names per struct are in the translator's report)
+    ids = {}
+    for mm in re.finditer(r'Notation id_(\w+) := (\d+)%positive', open(os.path.join(drv.COQ, 'GenSrc.v')).read()):
+        ids[mm.group(2)] = mm.group(1)
+    for k, kind in enumerate(['int', 'bool', 'elem', 'slice', 'nil']):
+        for o in range(4):
+            ids[str(1 + k + 5 * o)] = 'f_%s%d' % (kind, o)
+    field_names = {t: ', '.join('%s=%s' % kv for kv in sorted(fs.items())) for t, fs in (rep.get('fields') or {}).items() if fs}
+    outdir = os.path.join(drv.BUILD, pid)
+    sw = os.path.join(outdir, 'gensweep.v')
+    open(sw, 'w').write('From Verif Require Import Base MiniGo GenSrc GenRep GenSweep.\n'
+                        '(* an input on which the generated code cannot be run by the semantics (OHang: a callee that is not translated, or out\n'
+                        '   of fuel) is not an observation of the code: it is counted apart and never reported as a failing input *)\n'
+                        'Definition SALL := Eval vm_compute in sweeps_%s.\n'
+                        'Definition S := Eval vm_compute in List.filter (fun d => match d_generated d with OHang => false | _ => true end) SALL.\n'
+                        'Definition NH := Eval vm_compute in (length SALL - length S)%%nat.\nPrint NH.\n'
+                        'Definition N := Eval vm_compute in length S.\nPrint N.\n' % pid +
+                        ''.join('Definition S%d := Eval vm_compute in nth_error S %d.\nPrint S%d.\n' % (k, k, k) for k in range(3)))
+    ts = time.time()
+    rc, sout = drv.run(['timeout', '900', 'coqc', '-R', drv.COQ, 'Verif', sw], cwd=outdir)
+    ev['sweep_s'] = round(time.time() - ts, 1)
+    n = re.search(r'N = (\d+)', sout)
+    count = int(n.group(1)) if (rc == 0 and n) else None
+    ev['sweep_disagreements'] = count
+    nh = re.search(r'NH = (\d+)', sout)
+    ev['sweep_not_executable'] = int(nh.group(1)) if (rc == 0 and nh) else None
+    lemma = where = None
+    if failed is not None:
+        m = re.search(r'File "[^"]*?([\w.]+\.v)", line (\d+), characters', out)
+        lemma = enclosing_lemma(os.path.join(drv.COQ, m.group(1)), int(m.group(2))) if m else None
+        where = '%s:%s' % (m.group(1), m.group(2)) if m else failed
+        ev['failed'] = dict(file=failed, lemma=lemma, at=where)
+    common = dict(property=pid, seed=seed, tier=tier, kind='generated-code',
+                  lemma_that_no_longer_checks=lemma, at=where, coqc_output=out[-2500:] if failed else None,
+                  sweep_result=('sweeps_%s evaluated: %s disagreeing inputs' % (pid, count)) + (' - generated code and model agree on the whole small domain' if count == 0 and not ev.get('sweep_not_executable') else '')
+                               + ((' ; on %d inputs the generated code could not be run by the semantics (it calls a function that is not translated, or runs out of fuel): no observation there' % ev['sweep_not_executable']) if ev.get('sweep_not_executable') else ''),
+                  field_names=field_names,
+                  functions=[e['function'] + ' ' + e['source'] for e in ev['functions']],
+                  rerun='./check %s' % pid)
+    nv = 0
+    if count is None:
+        nv += 1
+        violation(drv, pid, dict(common, case='gensweep', kind='proof-obligation',
+                                 theorem_or_correspondence='the sweeps of coq/GenSweep.v (sweeps_%s) could not be evaluated' % pid, output=sout[-2000:]),
+                  'no-failing-input-found')
+    elif count > 0:
+        for k in range(min(count, 3)):
+            mm = re.search(r'S%d = (.*?)\n\s*: option disagreement' % k, sout, re.S)
+            txt = re.sub(r'\s+', ' ', mm.group(1)) if mm else '?'
+            txt = re.sub(r'(\d+)%positive', lambda x: ids.get(x.group(1), x.group(0)), txt)
+            nv += 1
+            violation(drv, pid, dict(common, case='gen%d' % k,
+                                     explanation='the MiniGo term generated from the current Go source and the model function the theorems are about disagree on this input (found by the exhaustive small-domain sweep coq/GenSweep.v: sweeps_%s; %d disagreeing inputs in all). d_method = the method, d_recv = the receiver before the call, d_args = the arguments, d_model = what the model says (ORet (result, receiver afterwards) / OPanic receiver-left-unchanged), d_generated = what the generated code does (OPanic r: it panics and leaves the receiver as r)' % (pid, count),
+                                     failing_input=txt))
+    if failed is None:
+        txt = ' | '.join(l.rstrip() for l in out.split('\n') if l.strip())
+        names = re.findall(r'Print Assumptions\s+(\w+)', open(os.path.join(drv.COQ, flat[-1])).read())
+        ev['print_assumptions'] = 'Print Assumptions of %s (in order %s): %s' % (flat[-1], ', '.join(names), txt)
+        bad = [l for l in out.split('\n') if l.strip() and 'Closed under the global context' not in l]
+        if bad or not names:
+            nv += 1
+            violation(drv, pid, dict(property=pid, seed=seed, tier=tier, case='genproof', kind='proof-obligation',
+                                     theorem_or_correspondence='%s compiles but its theorems are not closed under the global context' % flat[-1],
+                                     output=out[-3000:]), 'no-failing-input-found')
+    elif nv == 0 and viol_so_far == 0:
+        # a proof about the generated code no longer checks and no input was found on which code and model differ
+        nv = 1
+        violation(drv, pid, dict(common, case='genproof',
+                                 theorem_or_correspondence='the lemma %s (%s) about the code generated from the current Go source no longer checks; the exhaustive small-domain sweeps (sweeps_%s: %d disagreeing inputs, i.e. generated code and model agree on the whole small domain) and the correspondence run found no input on which code and model differ: the property is no longer shown to hold for the code as it is now, rather than shown to fail' % (lemma, where, pid, count),
+                                 sweep_output=sout[-800:]), 'no-failing-input-found')
+    else:
+        nv += 1
+        print('(a proof about the generated code no longer checks: %s in %s)' % (lemma, where), flush=True)
+    return nv, ev
+
+
 def assumptions_of(drv, pid):
     """compile the property file once more (cheap) to capture its Print Assumptions output"""
     pf = os.path.join(drv.COQ, pid + '.v')
@@ -91,6 +248,66 @@ def model_view(drv, pid, outdir, shard_file, local_case, step):
     return out
 
 
+def predicates_without_model(drv, pid, tier, seed, cfg, stage):
+    """The Coq development does not build against these sources, so no case can be evaluated on the model.  The
+    property's own predicates, which the harness evaluates on the real code, need no model: run the generator for them
+    alone and report the cases on which they fail as concrete failing inputs (next to the proof-obligation violation)."""
+    try:
+        if cfg.get('race') or not hasattr(drv, 'build_harness_only'):
+            return
+        ok, info = drv.build_harness_only()
+        if not ok:
+            return
+        outdir = os.path.join(drv.BUILD, pid)
+        shutil.rmtree(outdir, ignore_errors=True)
+        os.makedirs(outdir)
+        count = cfg[tier if tier in ('quick', 'thorough') else 'quick']
+        rc, out = drv.run([drv.HARNESS_BIN, 'gen', pid, '-seed', str(seed), '-tier', tier, '-out', outdir, '-count', str(count)],
+                          env=drv.GOENV, timeout=3000)
+        if rc != 0:
+            return
+        meta = json.load(open(os.path.join(outdir, 'cases.json')))
+        n = 0
+        for pv in ((meta.get('extra') or {}).get('predicate_violations') or []):
+            if not isinstance(pv, dict):
+                continue
+            n += 1
+            if n > 3:
+                continue
+            g = pv['case']
+            violation(drv, pid, dict(property=pid, seed=seed, tier=tier, count=count, case=g, kind='predicate', history=meta['traces'][g],
+                                     property_predicates_violated_on_the_implementation=pv['violated'],
+                                     explanation='the Coq development no longer builds against these sources (stage %s), so the model could not be evaluated; '
+                                                 'the property\'s own predicates, evaluated by the harness on the observed behaviour of the real code, fail on this case: '
+                                                 'it is a concrete failing input' % stage))
+        if n > 3:
+            print('(%d further cases failing the predicates not written out)' % (n - 3))
+    except Exception as e:   # never let this extra step turn a violation into a fault of the machinery
+        print('(the predicates could not be evaluated without the model: %r)' % (e,))
+
+
+def static_words(drv, cfg):
+    """for a property with late files: what the statically extracted tables (coq/ParamsFoot.v) say in words about a change of
+    the sources, compared with the expected tables - needs no compiled Coq file, so it is available when the build is broken"""
+    if not cfg.get('late_files'):
+        return {}
+    try:
+        import footdiff
+        if 'AliasStatic.v' in cfg['late_files']:
+            diffs, regenerated, expected = footdiff.alias_differences(drv)
+            where = 'coq/AliasFacts.v'
+        else:
+            diffs, regenerated, expected = footdiff.differences(drv)
+            where = 'coq/IndepFacts.v'
+        if diffs:
+            return dict(static_explanation=dict(what='differences between the statically extracted tables (coq/ParamsFoot.v) and the expected ones (%s)' % where,
+                                                difference_in_words=[d['words'] + '  [lemma ' + d['lemma'] + ' of the late file]' for d in diffs],
+                                                regenerated=regenerated, expected=expected))
+    except Exception as e:   # never let the explanation break the report
+        return dict(static_explanation=dict(what='the static tables could not be compared: %r' % (e,)))
+    return {}
+
+
 def check(drv, pid, tier, seed):
     if pid not in PROPS:
         print('unknown property', pid)
@@ -100,27 +317,28 @@ def check(drv, pid, tier, seed):
     ok, info = drv.build_all(bool(cfg.get('race')))
     if not ok:
         stage = info.get('stage')
-        if stage in ('coq', 'hygiene', 'genparams'):
+        if stage in ('coq', 'hygiene', 'genparams', 'gotrans'):
             # a proof obligation (or the translator's expectation) no longer checks
             tail = info.get('output', '')[-3000:]
-            more = {}
-            if cfg.get('late_files'):
-                # the statically extracted tables may say in words what changed in the sources (they need no compiled Coq file)
-                try:
-                    import footdiff
-                    diffs, regenerated, expected = footdiff.differences(drv)
-                    if diffs:
-                        more = dict(static_explanation=dict(what='differences between the statically extracted footprint tables (coq/ParamsFoot.v) and the expected ones (coq/IndepFacts.v)',
-                                                            difference_in_words=[d['words'] + '  [lemma ' + d['lemma'] + ' of the late file]' for d in diffs],
-                                                            regenerated=regenerated, expected=expected))
-                except Exception as e:   # never let the explanation break the report
-                    more = dict(static_explanation=dict(what='the static tables could not be compared: %r' % (e,)))
+            more = static_words(drv, cfg)
             path = violation(drv, pid, dict(property=pid, seed=seed, case='proof', kind='proof-obligation', stage=stage,
                                              theorem_or_correspondence='the Coq development no longer builds against the regenerated Params.v (stage %s)' % stage,
                                              output=tail, **more), 'no-failing-input-found')
+            predicates_without_model(drv, pid, tier, seed, cfg, stage)
             return 1
         print('check: cannot build (%s):\n%s' % (stage, info.get('output', '')[-3000:]))
         return 2
+    if info.get('coq_broken'):
+        # some Coq file no longer compiles; does that concern this property?  (its own files, transitively)
+        stale = drv.coq_stale(cfg['files'])
+        if stale:
+            outp = info.get('coq_output', '')
+            errs = re.findall(r'(File "\./[\w.]+", line \d+, characters [\d-]+:\n(?:.*\n){1,12}?)(?=make|File|COQC|Closed|$)', outp)
+            violation(drv, pid, dict(property=pid, seed=seed, case='proof', kind='proof-obligation', stage='coq',
+                                     theorem_or_correspondence='the Coq files of this property no longer build against the regenerated sources (Params.v / ParamsFoot.v / GenSrc.v / GenQueue.v): %s have no up-to-date compiled file; files that failed to compile: %s' % (', '.join(stale), ', '.join(f + '.v' for f in info.get('coq_failed_files', []))),
+                                     errors=[e.strip() for e in errs][:6], output=outp[-3000:], **static_words(drv, cfg)), 'no-failing-input-found')
+            return 1
+        print('(a Coq file of another property does not compile: %s; the files of %s are up to date)' % (', '.join(info.get('coq_failed_files', [])), pid), flush=True)
     outdir = os.path.join(drv.BUILD, pid)
     for old in glob.glob(os.path.join(drv.BUILD, 'replay', pid + '-*.json')):
         os.remove(old)
@@ -190,7 +408,9 @@ def check(drv, pid, tier, seed):
                 return True
         return False
 
-    for (g, step, shard, local) in mism:
+    # only the first three cases are written out: those that also fail one of the property's own predicates
+    # (concrete failing inputs) come first
+    for (g, step, shard, local) in sorted(mism, key=lambda m: (m[0] not in pred, m[0])):
         trace = meta['traces'][g]
         if is_known('\n'.join(trace)):
             continue
@@ -255,7 +475,21 @@ def check(drv, pid, tier, seed):
         print('KNOWN-FINDING: property=%s %s' % (pid, k['what']), flush=True)
     if viol > reported:
         print('(%d further mismatching cases not written out)' % (viol - reported))
-    nobl, names = drv.count_obligations(cfg['files'] + list(cfg.get('late_files') or []))
+    gen_extra = None
+    if cfg.get('gen_proofs'):
+        nv, gen_extra = gen_check(drv, pid, cfg, info, seed, tier, viol)
+        viol += nv
+    queue_extra = None
+    if cfg.get('queue_proofs'):
+        import queuegen
+        nv, queue_extra = queuegen.queue_check(drv, violation, pid, cfg, info, seed, tier, viol)
+        viol += nv
+    table_extra = None
+    if cfg.get('table_proofs'):
+        import tablegen
+        nv, table_extra = tablegen.table_check(drv, violation, pid, cfg, info, seed, tier, viol)
+        viol += nv
+    nobl, names = drv.count_obligations(cfg['files'] + list(cfg.get('late_files') or []) + [f for g in (cfg.get('gen_proofs') or []) for f in (g if isinstance(g, list) else [g])] + list(cfg.get('queue_proofs') or []) + list(cfg.get('table_proofs') or []))
     ndis = nobl
     if static is not None and not static['ok']:
         ndis = nobl - max(1, len(static.get('failing_lemmas') or []))
@@ -264,7 +498,14 @@ def check(drv, pid, tier, seed):
         # independent re-check of the property file and everything it depends on; lists the axioms
         tk = time.time()
         with drv.Lock():
-            rc, out = drv.run(['timeout', '3000', 'coqchk', '-silent', '-o', '-R', drv.COQ, 'Verif', 'Verif.' + pid], cwd=drv.COQ)
+            # the property file and the late proof files of this property (about the regenerated code / tables), with everything they depend on
+            late = []
+            for key in ('late_files', 'gen_proofs', 'queue_proofs', 'table_proofs'):
+                for g in (cfg.get(key) or []):
+                    for f in (g if isinstance(g, list) else [g]):
+                        if os.path.exists(os.path.join(drv.COQ, f[:-2] + '.vo')):
+                            late.append('Verif.' + f[:-2])
+            rc, out = drv.run(['timeout', '6000', 'coqchk', '-silent', '-o', '-R', drv.COQ, 'Verif', 'Verif.' + pid] + late, cwd=drv.COQ)
         summary = out[out.find('CONTEXT SUMMARY'):] if 'CONTEXT SUMMARY' in out else out[-1500:]
         coqchk = dict(exit=rc, seconds=round(time.time() - tk, 1), summary=' | '.join(l.strip() for l in summary.split('\n') if l.strip()))
         if rc != 0:
@@ -274,12 +515,13 @@ def check(drv, pid, tier, seed):
     ev = dict(property_id=pid, tier=tier, seed=seed, level='proof',
               coverage=dict(obligations=nobl, discharged=ndis,
                             checker_cmd='cd /verif/coq && coq_makefile -f _CoqProject -o Makefile && make -j16  (coqc 8.16.1, full .vo build); then coqc on build/%s/cases_*.v (vm_compute of the model on the generated histories)' % pid,
-                            trusted_base=assumptions_of(drv, pid) + (static.get('assumptions', []) if static is not None else []) + TRUSTED_COMMON,
+                            trusted_base=assumptions_of(drv, pid) + (static.get('assumptions', []) if static is not None else []) + TRUSTED_COMMON + (TRUSTED_GEN if cfg.get('gen_proofs') else []) + (TRUSTED_QUEUE if cfg.get('queue_proofs') else []) + (TRUSTED_PIPES if 'GenC06.v' in (cfg.get('queue_proofs') or []) else []),
                             evaluations=meta['cases'], distinct_nontrivial=meta['distinct_nontrivial'], rule=meta['rule'],
                             samples=meta['samples'], steps=meta['steps'],
                             traces_validated_against_impl=meta['cases'],
                             op_histogram=meta.get('op_histogram'), outcome_histogram=meta.get('outcome_histogram'),
                             type_histogram=meta.get('type_histogram'), length_histogram=meta.get('length_histogram'), extra=meta.get('extra'),
+                            generated_code=gen_extra, generated_queue_methods=queue_extra, regenerated_tables=table_extra,
                             hangs=meta.get('hangs', 0), mismatching_cases=len(mism), known_findings_reported=sorted(known_hit),
                             params=info.get('genparams'), obligations_files=cfg['files'] + list(cfg.get('late_files') or []), coqchk=coqchk,
                             late_files=(dict(ok=static['ok'], files=static['files'], seconds=static['seconds'], failing_lemmas=static.get('failing_lemmas'),
